@@ -241,6 +241,8 @@ def enumerate_specs(tier, seed):
                 continue
             if tier == "quick" and len(apps) == 3 and ci % 3 != hi % 3:
                 continue             # quick: a third of the length-3 design per configuration
+            if tier == "quick" and len(apps) == 2 and ci >= 2 and (hi + ci) % 2:
+                continue             # quick: ALL pairs for the first two configurations, half of them for the others
             batches = init + "".join(apps)
             steps = len(batches)
             spec = {
@@ -293,7 +295,8 @@ def run_bounded(ctx):
     ctx.bounded_group(G, rule=(
         "histories = original write + 1..3 appends (thorough: ..5, seeded sample) over the batch alphabet "
         f"{ {k: v[:2] + (list(v[2]),) for k, v in BATCHES.items()} } (rows, nulls, category labels): all sequences of "
-        "length 1 and 2, a pair-covering design of length 3, originals A/E(mpty)/M(ulti row group)/U; x 12 dataset "
+        "length 1 and 2 (quick: all pairs for 2 configurations, every second pair for the other 10; thorough: all), a "
+        "pair-covering design of length 3 (quick: a third of it per configuration), originals A/E(mpty)/M(ulti row group)/U; x 12 dataset "
         "configurations (simple | hive | drill; partition_on none/p/p,q; index none/datetime/int64; "
         "fastparquet.write(append=True) | ParquetFile.write_row_groups); codec and row_group_offsets rotate per step "
         "over 6 codecs x 4 offset kinds.  Checked after every step on a fresh open.  Three cases per history "
